@@ -145,7 +145,7 @@ Lemma wait_response_inl id s size s1 cl :
   (8 <= length s)%nat /\ size = get_bes 4 (firstn 4 s) - 4 /\ s1 = skipn 8 s /\ cl = false /\
   (get_bes 4 (firstn 4 (skipn 4 s)) =? id) = true.
 Proof.
-  unfold wait_response. destruct (Nat.ltb_spec (length s) 8); [intros H; inversion H|].
+  unfold wait_response. destruct (Nat.ltb_spec (length s) 8) as [Hl|Hl]; [intros H; inversion H|].
   destruct (get_bes 4 (firstn 4 (skipn 4 s)) =? id) eqn:E; intros H; inversion H; auto.
 Qed.
 
@@ -182,7 +182,7 @@ Proof.
     - inversion H'; subst st' s2. split; [|reflexivity].
       destruct (op_read_exact _ _ _ _ _ _ _ Er) as (c & Hc & Hlc).
       exists c. split; [exact Hlen|]. split; [|lia].
-      rewrite <- Hc, <- Hs1. symmetry. apply firstn_skipn.
+      rewrite <- Hc, Hs1. symmetry. apply firstn_skipn.
     - inversion H'; subst r. exfalso.
       destruct e; try contradiction. rewrite Ea in Hr.
       pose proof (nk_op_read a (op_ver o) Hr _ _ _ _ _ Er) as Hk. discriminate Hk. }
@@ -237,9 +237,9 @@ Proof.
   rewrite H8 in Hs. unfold frame in Hs. rewrite <- !app_assoc in Hs.
   apply app_inv_head in Hs. apply app_inv_head in Hs.
   assert (Hl : length body = length c) by lia.
-  revert c Hl Hs Hc. clear. induction body as [|b body IH]; intros [|x c] Hl Hs Hc;
-    cbn in *; try discriminate; [auto|].
-  inversion Hs. eapply IH; eauto. lia.
+  clear - Hl Hs. revert c Hl Hs. induction body as [|b body IH]; intros [|x c] Hl Hs;
+    cbn in *; try discriminate; [symmetry; exact Hs|].
+  inversion Hs. apply (IH c); [lia|assumption].
 Qed.
 
 (* what conn_do does on a well-formed frame of a "read everything, then check" operation *)
@@ -262,20 +262,30 @@ Proof.
 Qed.
 
 (* ---- "a Kafka error keeps the connection, any other error closes it" ---- *)
+Lemma post_err_kafka topic a v x e : post topic a v x = RErr e -> is_kafka e = true.
+Proof.
+  unfold post. destruct (post_error topic a v x); [intros H; inversion H; reflexivity|].
+  destruct a; intros H; discriminate H.
+Qed.
+
 Theorem closed_after_other_error st o s st' e s' :
   conn_do st o s = (st', RErr e, s') ->
   is_kafka e = false -> e <> ENoProgress -> op_api o <> AApiVersions ->
   closed st' = true.
 Proof.
   intros H Hk Hnp Ha. unfold conn_do in H.
-  destruct (closed st) eqn:Hcl; [inversion H; subst; exact Hcl|].
+  destruct (closed st) eqn:Hcl; [inversion H; subst; reflexivity|].
   destruct (wait_response (wrap32 (corr st + 1)) s) as [[[size|e0] s1] cl] eqn:Ew.
-  - destruct (op_api o) eqn:Ea; try contradiction;
-      try (destruct (op_read _ (op_ver o) size s1) as [[[x|e1] sz1] s2] eqn:Er;
-           [ inversion H as [[H1 H2 H3]]; unfold post in H2;
-             destruct (post_error _ _ _ _); [inversion H2; subst e; discriminate Hk|];
-             try discriminate H2
-           | inversion H; subst; cbn; rewrite Hk; reflexivity ]).
+  - assert (Hgen : forall a st1,
+       match op_read a (op_ver o) size s1 with
+       | (inl v, _, s'') => (st1, post (cfg_topic st) a (op_ver o) v, s'')
+       | (inr e, _, s'') => (set_closed st1 (negb (is_kafka e)), RErr e, s'')
+       end = (st', RErr e, s') -> closed st' = true).
+    { intros a st1 H'.
+      destruct (op_read a (op_ver o) size s1) as [[[x|e1] sz1] s2] eqn:Er.
+      - inversion H' as [[H1 H2 H3]]. apply post_err_kafka in H2. congruence.
+      - inversion H'; subst. cbn. rewrite Hk. reflexivity. }
+    destruct (op_api o) eqn:Ea; try contradiction; try (eapply Hgen; exact H).
     (* fetch *)
     destruct (fetch_after_wait (op_ver o) (op_off o) size s1) as [[r cl'] s2] eqn:Ef.
     inversion H; subst. cbn. unfold fetch_after_wait in Ef.
@@ -294,7 +304,7 @@ Qed.
 Theorem closed_stays_closed st o s :
   closed st = true ->
   exists st', conn_do st o s = (st', RErr EClosed, s) /\ closed st' = true.
-Proof. intros H. unfold conn_do. rewrite H. eexists. split; [reflexivity|exact H]. Qed.
+Proof. intros H. unfold conn_do. rewrite H. eexists. split; reflexivity. Qed.
 
 Theorem closed_run st ops s :
   closed st = true ->
@@ -320,4 +330,102 @@ Proof.
   rewrite firstn_firstn. replace (Nat.min 4 k) with 4%nat by lia.
   rewrite skipn_firstn_comm, firstn_firstn. replace (Nat.min 4 (k - 4)) with 4%nat by lia.
   rewrite skipn_firstn_comm. subst s1 size. rewrite Hid. reflexivity.
+Qed.
+
+Lemma conn_do_generic st o s :
+  closed st = false -> op_api o <> AFetch -> op_api o <> AApiVersions ->
+  conn_do st o s =
+    let st1 := mkConn false (wrap32 (corr st + 1)) (cfg_topic st) (offset st) in
+    match wait_response (wrap32 (corr st + 1)) s with
+    | (inr e, s', cl) => (set_closed st1 cl, RErr e, s')
+    | (inl size, s', _) =>
+        match op_read (op_api o) (op_ver o) size s' with
+        | (inl v, _, s'') => (st1, post (cfg_topic st) (op_api o) (op_ver o) v, s'')
+        | (inr e, _, s'') => (set_closed st1 (negb (is_kafka e)), RErr e, s'')
+        end
+    end.
+Proof.
+  intros H Hf Ha. unfold conn_do. rewrite H.
+  destruct (op_api o) eqn:E; try contradiction; reflexivity.
+Qed.
+
+(* C17 (Conn half), structural form: cut the incoming stream anywhere strictly inside what the
+   complete exchange consumed: the operation fails with io.EOF / io.ErrUnexpectedEOF and the
+   Conn closes itself.  No assumption on the bytes. *)
+Theorem conn_do_cut st o s st' r s' k :
+  closed st = false -> op_api o <> AFetch -> op_api o <> AApiVersions ->
+  conn_do st o s = (st', r, s') ->
+  (k + length s' < length s)%nat ->
+  exists e st2 s2,
+    conn_do st o (firstn k s) = (st2, RErr e, s2) /\ transport e = true /\ closed st2 = true.
+Proof.
+  intros Hcl Hf Ha H Hk.
+  rewrite conn_do_generic in H by assumption. rewrite conn_do_generic by assumption. cbv zeta in *.
+  destruct (wait_response (wrap32 (corr st + 1)) s) as [[[size|e0] s1] cl] eqn:Ew.
+  2:{ unfold wait_response in Ew. destruct (length s <? 8)%nat.
+      - inversion Ew; subst. inversion H; subst. lia.
+      - destruct (_ =? _); inversion Ew; subst. inversion H; subst. lia. }
+  pose proof Ew as Ew'. apply wait_response_inl in Ew' as (Hlen & _ & Hs1 & _ & _).
+  assert (Hs : s = firstn 8 s ++ s1) by (rewrite Hs1; symmetry; apply firstn_skipn).
+  assert (H8 : length (firstn 8 s) = 8%nat) by (apply firstn_length_le; exact Hlen).
+  destruct (op_read (op_api o) (op_ver o) size s1) as [[ra sz1] s2] eqn:Er.
+  assert (Hs2 : s' = s2) by (destruct ra; inversion H; reflexivity).
+  destruct (good_op_read _ _ _ _ _ _ _ Er) as (c & Hc & _ & Hd).
+  assert (Hlc : (k < 8 + length c)%nat).
+  { rewrite Hs, Hc, !app_length, H8 in Hk. subst s2. lia. }
+  destruct (Nat.lt_ge_cases k 8) as [Hk8|Hk8].
+  - exists EEOF. unfold wait_response.
+    destruct (Nat.ltb_spec (length (firstn k s)) 8) as [Hx|Hx]; [|rewrite firstn_length in Hx; lia].
+    eexists. eexists. split; [reflexivity|]. split; reflexivity.
+  - rewrite (wait_response_cut _ _ _ _ _ _ Ew Hk8).
+    replace (firstn (k - 8) s1) with (firstn (k - 8) c)
+      by (rewrite Hc; symmetry; apply firstn_app_lt; lia).
+    destruct (Hd (k - 8)%nat ltac:(lia)) as (e & sz2 & s3 & He & Ht).
+    rewrite He. exists e. eexists. eexists. split; [reflexivity|]. split; [exact Ht|].
+    cbn. rewrite (transport_not_kafka _ Ht). reflexivity.
+Qed.
+
+(* on a well-formed frame of a "read everything, then check" operation: every cut position *)
+Theorem conn_cut_schema st a v off w k :
+  schema_api a = true -> wt (resp_ty a v) w -> fits (enc (resp_ty a v) w) -> closed st = false ->
+  (k < length (frame (wrap32 (corr st + 1)) (enc (resp_ty a v) w)))%nat ->
+  exists e st2 s2,
+    conn_do st (mkOp a v off) (firstn k (frame (wrap32 (corr st + 1)) (enc (resp_ty a v) w)))
+      = (st2, RErr e, s2) /\ transport e = true /\ closed st2 = true.
+Proof.
+  intros Hs Hwt Hfit Hcl Hk.
+  pose proof (conn_do_schema_frame st a v off w [] Hs Hwt Hfit Hcl) as Hfull.
+  rewrite app_nil_r in Hfull.
+  eapply conn_do_cut; try exact Hfull; try exact Hcl; cbn [op_api];
+    try (destruct a; discriminate). cbn [length]. lia.
+Qed.
+
+(* ---- runs: every operation consumes its own frame ---- *)
+Inductive frames_consumed : list N -> nat -> list N -> Prop :=
+| fc_nil s : frames_consumed s 0 s
+| fc_cons s s1 s2 n : consumed_frame s s1 -> frames_consumed s1 n s2 -> frames_consumed s (S n) s2.
+
+Definition clean_outcome (o : op) (r : result) : Prop :=
+  op_api o <> AFetch /\ op_api o <> AApiVersions /\
+  match r with
+  | ROk _ => True
+  | RErr (EKafka _) => schema_api (op_api o) = true
+  | _ => False
+  end.
+
+Theorem run_frames_exact ops : forall st s st' rs s',
+  closed st = false ->
+  conn_run st ops s = (st', rs, s') ->
+  Forall2 clean_outcome ops rs ->
+  frames_consumed s (length ops) s' /\ closed st' = false.
+Proof.
+  induction ops as [|o ops IH]; intros st s st' rs s' Hcl H Hall; cbn [conn_run] in H.
+  - inversion H; subst. split; [constructor|exact Hcl].
+  - destruct (conn_do st o s) as [[st1 r1] s1] eqn:E1.
+    destruct (conn_run st1 ops s1) as [[st2 rs2] s2] eqn:E2.
+    inversion H; subst st' rs s'. inversion Hall as [|? ? ? ? Hc Hrest]; subst.
+    destruct Hc as (Hf & Ha & Hr).
+    destruct (frame_exact _ _ _ _ _ _ Hcl Hf Ha E1 Hr) as [Hcf Hcl1].
+    destruct (IH _ _ _ _ _ Hcl1 E2 Hrest) as [Hfc Hcl2].
+    split; [econstructor; eassumption|exact Hcl2].
 Qed.
